@@ -694,6 +694,10 @@ func (e *Engine) floatOp(op string, a, b *Term) *Term {
 }
 
 func (e *Engine) roundF(r *Term) *Term {
+	if e.fpExact {
+		e.fpIdeal++
+		return r
+	}
 	e.fpN++
 	er := e.tb.Sym(fmt.Sprintf("fperr#%d", e.fpN), RealSort)
 	u := e.tb.RealConstR(new(big.Rat).SetFrac(big.NewInt(1), new(big.Int).Lsh(big.NewInt(1), 53)))
@@ -721,8 +725,8 @@ func (e *Engine) convert(fr *frame, from, to types.Type, x Value) Value {
 			f, _ := new(big.Float).SetInt(t.I).Float64()
 			return e.tb.RealConstF(f)
 		}
-		if t.Sort.K != SInt {
-			panic(engineErr("int->float conversion of a bit-vector term: run this harness in integer mode (%s)", e.stack(fr)))
+		if t.Sort.K != SInt && t.Sort.K != SReal {
+			panic(engineErr("int->float conversion of a bit-vector term: run this harness in integer or real mode (%s)", e.stack(fr)))
 		}
 		return e.roundF(e.tb.ToReal(t))
 	case isFloat(from) && tok:
@@ -736,7 +740,11 @@ func (e *Engine) convert(fr *frame, from, to types.Type, x Value) Value {
 		}
 		// truncation toward zero: fresh integer d with d <= p < d+1 (p>=0) or d-1 < p <= d (p<0)
 		e.fpN++
-		d := e.tb.Sym(fmt.Sprintf("trunc#%d", e.fpN), IntSort)
+		dsort := IntSort
+		if e.mode == "real" {
+			dsort = RealSort // relaxed truncation: integrality dropped (over-approximation)
+		}
+		d := e.tb.Sym(fmt.Sprintf("trunc#%d", e.fpN), dsort)
 		dr := e.tb.ToReal(d)
 		zero := e.tb.RealConstF(0)
 		one := e.tb.RealConstF(1)
